@@ -4,6 +4,7 @@
   `renderN_sp` (`Lemmas/NoPanic.lean`), proved by induction over the interpreter.
 -/
 import LiquidModel.Lemmas.NoPanic
+import LiquidModel.Lemmas.NoFuel
 import LiquidModel.Model.StdFilters
 import LiquidModel.Props.C14
 import LiquidModel.Props.C15
@@ -94,6 +95,55 @@ is never `io` unless a pure evaluator returned it (none does) — corollary of t
 theorem C02_find_never_panics (d : Obj) (k : Sc) (p : List Sc) (h : objContains d k.render = true) :
     (find (.obj d) (k :: p)).isPanic = false := by
   rw [C18.find_no_panic d k p h]; cases tryFind (V.obj d) (k :: p) <;> rfl
+
+/-! ### termination: the fuel is only a device -/
+
+/-- **Enough fuel is enough.** A template whose nesting depth plus `k` is at most the fuel never
+ends in the model's `fuel` outcome, provided the partial store's templates do not when given `k`
+(or the template calls no partial at all) and the filters are pure functions. Together with Lean's
+acceptance of the interpreter this is the termination claim: every render returns output, an error
+or (never, by C02_no_panic) a panic. -/
+theorem C02_enough_fuel (env : Env) (hf : FiltersNoFuel env) (k fuel : Nat) (t : Tmpl)
+    (hd : dL t + k ≤ fuel) (hp : npL t = true ∨ LookupNF env k) (globals : Obj) :
+    renderTop fuel env t globals ≠ .fuel := by
+  have h : NF (renderList (renderN fuel env) t) := by
+    refine NF.renderList t (fun x hx => renderN_nf env hf k fuel x ?_ ?_)
+    · have := dN_le_dL t x hx; omega
+    · rcases hp with h | h
+      · exact .inl (npN_of_npL t h x hx)
+      · exact .inr h
+  have := h (Rt.build globals) {}
+  unfold renderTop renderT
+  rcases hr : renderList (renderN fuel env) t (Rt.build globals) {} with ⟨r, rt', w⟩
+  rw [hr] at this
+  cases r <;> simp_all [Res.isFuel]
+
+/-- a store of partial-free templates of depth at most `D` is fine from fuel `D` on -/
+theorem C02_store_level (env : Env) (hf : FiltersNoFuel env) (D : Nat)
+    (hs : ∀ name, (env.lookup name).isFuel = false ∧ ∀ t, env.lookup name = .ok t → npL t = true ∧ dL t ≤ D) :
+    LookupNF env D := by
+  intro name
+  refine ⟨(hs name).1, fun t ht f hf' => ?_⟩
+  obtain ⟨hnp, hd⟩ := (hs name).2 t ht
+  refine NF.renderList t (fun x hx => renderN_nf env hf 0 f x ?_ (.inl (npN_of_npL t hnp x hx)))
+  have := dN_le_dL t x hx; omega
+
+/-- **More fuel changes nothing.** Once a render did not run out of fuel, any larger fuel gives
+exactly the same result — so "the" result of rendering is well defined, independent of the device. -/
+theorem C02_fuel_irrelevant (env : Env) (fuel extra : Nat) (t : Tmpl) (globals : Obj)
+    (h : renderTop fuel env t globals ≠ .fuel) :
+    renderTop (fuel + extra) env t globals = renderTop fuel env t globals := by
+  have hnf : (renderT fuel env t (Rt.build globals) {}).1.isFuel = false := by
+    unfold renderTop at h
+    rcases hr : renderT fuel env t (Rt.build globals) {} with ⟨r, rt', w⟩
+    rw [hr] at h
+    cases r <;> simp_all [Res.isFuel]
+  unfold renderTop
+  rw [renderT_mono env fuel extra t (Rt.build globals) {} hnf]
+
+/-- non-vacuity: a two-level template needs fuel 2 -/
+example : dL [.for_ "x".toList (.arr (.lit .nil)) none none false [.text "a".toList] none] = 2 := by decide
+example : npL [.for_ "x".toList (.arr (.lit .nil)) none none false [.text "a".toList] none] = true := by decide
 
 /-! ### non-vacuity -/
 example : wfL [.cycle "c".toList [.lit .nil], .for_ "x".toList (.arr (.lit .nil)) none none false [.brk] none] = true := by
